@@ -118,6 +118,7 @@ def extract(us, workdir):
                       opaque_records=us.opaque_records)
     text = unit.emit(us.emit)
     us.c_text = text
+    us.auto_stubs = list(getattr(unit, 'auto_stubs', []))      # const observers defined in another TU: replaced by 'any result, no side effect'
     os.makedirs(workdir, exist_ok=True)
     cpath = os.path.join(workdir, us.name + '.c')
     with open(cpath, 'w') as f: f.write(text)
@@ -180,7 +181,7 @@ def build_target(us, t, workdir, extra_defines=()):
         raise Undecided('goto-instrument --add-library failed for %s/%s:\n%s' % (us.name, t.id, out1[-3000:]))
     cmd = ['goto-instrument', '--dfcc', 'H']
     if t.enforce: cmd += ['--enforce-contract', t.enforce]
-    for r in t.replace: cmd += ['--replace-call-with-contract', r]
+    for r in list(t.replace) + [a for a in getattr(us, 'auto_stubs', []) if a not in t.replace]: cmd += ['--replace-call-with-contract', r]
     if t.loops: cmd += ['--apply-loop-contracts']
     cmd += [base + '.a.gb', base + '.b.gb']
     rc, out2, _ = run(cmd, 600)
